@@ -71,6 +71,8 @@ func main() {
 				c.Methods = hist.MethodPool[:1]
 				c.Pool = hist.GenPool(r, 4+r.IntN(6), true)
 				hist.GenFull(r, &c.Case, run.Pick(30, 60), 1+r.IntN(2))
+			case i == 5 || i == 8:
+				hist.GenVerbStory(r, &c.Case)
 			case i%3 == 2:
 				c.Methods = hist.MethodPool[:1]
 				hist.GenPartial(r, &c.Case, 3, 5)
@@ -91,6 +93,7 @@ func main() {
 	})
 	if run.Thorough() || run.Mode() == "plain" {
 		big(run)
+		manySnapshots(run)
 	}
 	if run.Mode() == "race" {
 		concurrent(run)
@@ -383,5 +386,77 @@ func concurrent(run *kit.Run) {
 		}
 		wg.Wait()
 		run.Count("concurrent_reobservations", reobs.Load())
+	}
+}
+
+// manySnapshots: a transaction may take any number of snapshots; the first ones stay what they were. Between two
+// writes that go through the same nodes, n snapshots (Txn.Iter and Txn.Snapshot alternating) are taken for n around
+// the sizes at which small counters wrap; the first, a middle and the last snapshot are re-observed after the second
+// write, after more writes and after the ending.
+func manySnapshots(run *kit.Run) {
+	h := func(fox.Context) {}
+	methods := []string{"GET", "POST", "TRACE"}
+	universe := []string{"/a/x", "/a/y", "/a/z", "/a", "/b/{p}", "/a/x/deep/{q}", "h.com/a/x"}
+	for _, n := range []int{1, 2, 3, 127, 128, 129, 255, 256, 257, 511, 512, 513, 1024, 65535, 65536, 65537} {
+		if n > 2000 && !run.Thorough() {
+			continue
+		}
+		for _, ending := range []string{"commit", "abort"} {
+			id := fmt.Sprintf("many-snapshots|n=%d|%s", n, ending)
+			run.Case(id, true)
+			run.Guard("panic|"+id, map[string]any{"snapshots": n, "ending": ending}, func() {
+				f, _ := fox.New()
+				for _, p := range []string{"/a", "/b/{p}", "h.com/a/x"} {
+					f.MustHandle("GET", p, h)
+				}
+				txn := f.Txn(true)
+				_, _ = txn.Handle("GET", "/a/x", h) // W1
+				type held struct {
+					name string
+					it   fox.Iter
+					v    hist.Viewer
+					obs  string
+					fp   string
+				}
+				var keep []*held
+				take := func(i int) {
+					var hd *held
+					if i%2 == 0 {
+						hd = &held{name: fmt.Sprintf("Txn.Iter() #%d", i), it: txn.Iter()}
+					} else {
+						sn := txn.Snapshot()
+						hd = &held{name: fmt.Sprintf("Txn.Snapshot() #%d", i), it: sn.Iter(), v: sn}
+					}
+					if i == 0 || i == n/2 || i == n-1 {
+						hd.obs = hist.ObserveIter(hd.v, hd.it, methods, universe, []string{"", "/", "/a"})
+						hd.fp = fox.VerifFingerprint(hd.it)
+						keep = append(keep, hd)
+					}
+				}
+				for i := 0; i < n; i++ {
+					take(i)
+				}
+				recheck := func(when string) {
+					for _, hd := range keep {
+						run.Eval(1)
+						if hist.ObserveIter(hd.v, hd.it, methods, universe, []string{"", "/", "/a"}) != hd.obs || fox.VerifFingerprint(hd.it) != hd.fp {
+							run.Violate("snapshot-changed|"+id, fmt.Sprintf("%s of a write transaction in which %d snapshots were taken between two writes changed %s", hd.name, n, when), map[string]any{"snapshots": n, "ending": ending})
+						}
+					}
+				}
+				_, _ = txn.Handle("GET", "/a/y", h) // W2, through the nodes W1 created
+				recheck("after the next write")
+				_, _ = txn.Update("GET", "/a/x", h)
+				_, _ = txn.Delete("GET", "/a")
+				_, _ = txn.Handle("GET", "/a/x/deep/{q}", h)
+				recheck("after three more writes")
+				if ending == "commit" {
+					txn.Commit()
+				} else {
+					txn.Abort()
+				}
+				recheck("after the transaction ended (" + ending + ")")
+			})
+		}
 	}
 }
